@@ -211,6 +211,16 @@ def run(rep, pool, driver, tier):
                 m = ['ndl_threading', 'ndl_openmp'][(i + per) % 2] if quick else None
                 for mm in ([m] if m else ['ndl_threading', 'ndl_openmp']):
                     cases.append((dict(base, per_file=per), mm))
+    # chunk-size arguments at and beyond their limits (model: CfgOK and the error directions of
+    # C01.ndl_chunk_args_raise): 2^32 does not fit the 4-byte count written into a chunk header resp. the
+    # `unsigned int` chunk size of the OpenMP entry point (OverflowError), 0 outcomes per job divides by zero
+    # (openmp) or is rejected (threading); 2^32 - 1 is still fine
+    for i, (pf, pj) in enumerate([(2 ** 32, 10), (2 ** 32 - 1, 10), (2 ** 32 + 5, 1), (3, 2 ** 32), (3, 2 ** 32 - 1), (2, 0),
+                                  (10000000, 0)]):
+        es = gen.events(r, r.randint(1, 5), dup=0.0) if i != 6 or r.random() < 0.5 else []
+        for m in ('ndl_threading', 'ndl_openmp'):
+            cases.append((dict(gen.params(r), events=es, freq=None, policy='error', n_jobs=r.choice([1, 2]), per_job=pj,
+                               per_file=pf, stream='ndl_chunk_args'), m))
     impls = pool.map([L.impl_task(c, m) for c, m in cases])
     models = driver.ask([L.model_request(c, m) for c, m in cases])
     shrunk = 0
@@ -219,6 +229,10 @@ def run(rep, pool, driver, tier):
         ne = len(gen.expand(c['events'], c['freq']))
         many = (ne + c['per_file'] - 1) // c['per_file'] >= 11
         rep.count('ndl_chunks:%s' % ('>=11' if many else '<11'))
+        if c['stream'] == 'ndl_chunk_args':
+            rep.count('chunk_args:per_file=%s,per_job=%s/%s -> %s' % (
+                '2^32%+d' % (c['per_file'] - 2 ** 32) if c['per_file'] > 10 ** 8 else c['per_file'],
+                '2^32%+d' % (c['per_job'] - 2 ** 32) if c['per_job'] > 10 ** 8 else c['per_job'], m, model.get('err') or 'returns'))
         rep.count('ndl_freq_column:%s/%s/%s' % ('yes' if c['freq'] is not None else 'no', m,
                                                 '>=11 chunks' if many else 'one chunk' if c['per_file'] >= ne else '2-10 chunks'))
         d = L.compare(impl, model)
